@@ -68,6 +68,53 @@ def key_export():
     return Scenario(label, KEY + '.__bytearray__', gen, props=('C14', 'C07'))
 
 
+def subkey_export():
+    """PGPKey.__bytearray__ of a SUBKEY object (what bytes(key.subkeys[id]) and bytes(key.subkeys[id].pubkey) give, and what the export of the
+    primary key concatenates): its own packet and its own exportable signatures - nothing of the key it belongs to. (The public twin of a
+    private subkey has the PRIVATE primary as parent: anything taken from the parent would put a Secret-Key packet into a public export.)"""
+    label = 'C14/PGPKey.__bytearray__[a subkey object, its primary is private]'
+
+    def gen(repo):
+        r = scn.Run(repo, KEY, '__bytearray__', label)
+        ex, st = r.ex, r.st
+        me, prim = E.VObj(KEY, 'sub'), E.VObj(KEY, 'prim')
+        SUBKB, PRIMKB, UIDB = z3.Const('PUBLIC_SUBKEY_PACKET', B), z3.Const('SECRET_PRIMARY_KEY_PACKET', B), z3.Const('USER_ID_PACKET', B)
+        st.pc += [z3.Length(PRIMKB) > 0, z3.Length(UIDB) > 0]
+        r.set('sub', '_key', E.VObj('pgpy.packet.packets.PubSubKeyV4', 'subpkt'))
+        r.set('prim', '_key', E.VObj('pgpy.packet.packets.PrivKeyV4', 'primpkt'))
+        r.hook('pgpy.packet.packets.PubSubKeyV4', '__bytearray__', scn.method_hook(lambda ex, st, o, a: [(st, ex.new_buf(st, SUBKB))]))
+        r.hook('pgpy.packet.packets.PrivKeyV4', '__bytearray__', scn.method_hook(lambda ex, st, o, a: [(st, ex.new_buf(st, PRIMKB))]))
+        r.hook('pgpy.packet.packets.UserID', '__bytearray__', scn.method_hook(lambda ex, st, o, a: [(st, ex.new_buf(st, UIDB))]))
+        sigs = {n: E.VObj(SIG, n) for n in ('binding', 'cross', 'primsig', 'uidsig')}
+        SB = {n: z3.Const('SIG_%s' % n, B) for n in sigs}
+        emb = {'binding': z3.BoolVal(False), 'cross': z3.BoolVal(True), 'primsig': z3.BoolVal(False), 'uidsig': z3.BoolVal(False)}
+        exp = {n: z3.Bool('exportable_%s' % n) for n in sigs}
+        r.hook(SIG, '__bytearray__', scn.method_hook(lambda ex, st, o, a: [(st, ex.new_buf(st, SB[o.ref]))]))
+        r.hook(SIG, 'embedded', lambda ex, st, o, a: [(st, E.VBool(emb[o.ref]))])
+        r.hook(SIG, 'exportable', lambda ex, st, o, a: [(st, E.VBool(exp[o.ref]))])
+        r.set('sub', '_signatures', ex.new_list(st, [sigs['binding'], sigs['cross']]))
+        r.set('sub', '_uids', ex.new_list(st, []))
+        r.set('sub', '_children', E.VDict([]))
+        uid = E.VObj('pgpy.pgp.PGPUID', 'uid')
+        r.set('uid', '_uid', E.VObj('pgpy.packet.packets.UserID', 'uidpkt'))
+        r.set('uid', '_signatures', ex.new_list(st, [sigs['uidsig']]))
+        r.set('prim', '_signatures', ex.new_list(st, [sigs['primsig']]))
+        r.set('prim', '_uids', ex.new_list(st, [uid]))
+        r.set('prim', '_children', E.VDict([(E.VStr(s='id'), me)]))
+        r.hook(KEY, 'is_primary', lambda ex, st, o, a: [(st, E.VBool(o.ref == 'prim'))])
+        par = lambda ex, st, o, a: [(st, prim if o.ref == 'sub' else E.VNone())]
+        r.hook('pgpy.types.ParentRef', 'parent', par)
+        r.hook('pgpy.types.ParentRef', '_parent', par)
+        spec = cat(SUBKB, z3.If(exp['binding'], SB['binding'], z3.Empty(B)))
+        for pi, (s, v) in enumerate(r.call(me, [])):
+            if isinstance(v, E.Raise):
+                r.oblige(s, 'safety(%s)/p%d' % (v.exc.split(':')[0], pi), z3.BoolVal(False), v.where)
+                continue
+            r.oblige(s, 'its-own-packet-and-its-own-exportable-signatures,nothing-of-the-primary-key/p%d' % pi, ex.seq(v, s) == spec)
+        return r.result()
+    return Scenario(label, KEY + '.__bytearray__', gen, props=('C14', 'C07'))
+
+
 def exportable_flag():
     label = 'C14/PGPSignature.exportable'
 
@@ -170,7 +217,7 @@ def insort(n):
 
 
 def scenarios():
-    return [key_export(), exportable_flag(), bool_parse, bool_value] + [insort(n) for n in (0, 1, 2, 3)]
+    return [key_export(), subkey_export(), exportable_flag(), bool_parse, bool_value] + [insort(n) for n in (0, 1, 2, 3)]
 
 
 def key_or(what):
